@@ -47,6 +47,27 @@ def family(tier, rnd):
     od = func("odd", ["N"], [if_([bin_("eq", var("N"), num(0))], [[ret(b(False))]]), ret(call("even", bin_("sub", var("N"), num(1))))])
     for n in (0, 1, 6, 7):
         add("mutual-%d" % n, prog([disp(call("even", num(n))), ex(num(0))], funcs=[ev, od]))
+    # methods as VALUES: the callee of one and the same call expression varies (an input bound to a method, a loop variable over a list of
+    # methods, a variable that is re-bound) - the name is resolved every time the call executes
+    inc = func("inc", ["N"], [disp(s("inc"), var("N")), ret(bin_("add", var("N"), num(1)))])
+    dbl = func("dbl", ["N"], [disp(s("dbl"), var("N")), ret(bin_("mul", var("N"), num(2)))])
+    neg = func("neg", ["N"], [ret(bin_("sub", num(0), var("N")))])
+    two = func("two", ["A", "B"], [ret(bin_("add", var("A"), var("B")))])
+    apply_ = func("apply", ["T", "N"], [mark("apply"), ret(call("T", var("N")))])
+    add("hof-input-bound-to-method", prog([disp(call("apply", var("inc"), num(10))), disp(call("apply", var("dbl"), num(10))), disp(call("apply", var("inc"), num(20))), disp(call("apply", var("neg"), num(5))), ex(num(0))], funcs=[inc, dbl, neg, apply_]))
+    add("hof-loop-over-methods", prog([iter_(["V"], lst(var("inc"), var("dbl"), var("neg"), var("dbl")), [disp(call("V", num(3)))]), ex(num(0))], funcs=[inc, dbl, neg]))
+    add("hof-rebound-variable", prog([decl("V", var("inc")), decl("I", num(0)),
+                                      while_(bin_("lt", var("I"), num(4)), [ex(asg(var("I"), bin_("add", var("I"), num(1)))), disp(call("V", var("I"))),
+                                                                              if_([bin_("eq", var("I"), num(2))], [[ex(asg(var("V"), var("dbl")))]])]), ex(num(0))], funcs=[inc, dbl]))
+    twice = func("twice", ["T", "U", "N"], [ret(call("U", call("T", var("N"))))])
+    add("hof-two-inputs", prog([disp(call("twice", var("inc"), var("dbl"), num(3))), disp(call("twice", var("dbl"), var("inc"), num(3))), disp(call("twice", var("neg"), var("neg"), num(3))), ex(num(0))], funcs=[inc, dbl, neg, twice]))
+    fold = func("fold", ["T", "U", "N"], [if_([bin_("eq", var("N"), num(0))], [[ret(num(0))]]), ret(bin_("add", call("T", var("N")), call("fold", var("U"), var("T"), bin_("sub", var("N"), num(1)))))])
+    add("hof-recursion-swapping-inputs", prog([disp(call("fold", var("inc"), var("neg"), num(5))), disp(call("fold", var("neg"), var("inc"), num(5))), ex(num(0))], funcs=[inc, neg, fold]))
+    add("hof-arity-through-input", prog([mark("a"), disp(call("apply", var("inc"), num(1))), disp(call("apply", var("two"), num(1))), mark("dead")], funcs=[inc, two, apply_]))
+    add("hof-input-not-a-method", prog([mark("a"), disp(call("apply", var("inc"), num(1))), disp(call("apply", num(7), num(1))), mark("dead")], funcs=[inc, apply_]))
+    K2 = cls("H", [("f", NULL)], ctor=func("H", ["T"], [ex(asg(this("f"), var("T")))]), methods=[func("run", ["N"], [decl("G", this("f")), ret(call("G", var("N")))])])
+    add("hof-objects-holding-methods", prog([decl("A", new("H", var("inc"))), decl("B", new("H", var("dbl"))), disp(mcall(var("A"), "run", num(100))), disp(mcall(var("B"), "run", num(100))), disp(mcall(var("A"), "run", num(101))), ex(num(0))],
+                                            funcs=[inc, dbl], classes=[K2]))
     # 得到
     add("yield-binds-const", prog([ex(call("F", num(2), y="R")), disp(var("R")), decl("S", bin_("add", var("R"), num(1))), disp(var("S")), ex(num(0))], funcs=[func("F", ["X"], [ret(bin_("mul", var("X"), num(3)))])]))
     add("yield-in-fn", prog([disp(call("G")), ex(num(0))], funcs=[func("F", ["X"], [ret(bin_("mul", var("X"), num(3)))]), func("G", [], [ex(call("F", num(2), y="R")), ret(var("R"))])]))
